@@ -18,6 +18,51 @@ def _copy_repo(dst):
   shutil.copytree(extract.REPO, dst, ignore=ignore, symlinks=True)
 
 
+def run_neutral(pid, mod):
+  """behaviour-preserving edits (renamed locals, flipped comparisons, reordered independent statements, extra logging): the
+  property still holds on the edited copy, so the rules must stay silent — any violation here is a false alarm of the checker"""
+  from .core import Ctx
+  edits = list(getattr(mod, 'NEUTRAL', []))
+  res = {'seeded': len(edits), 'silent': [], 'alarmed': [], 'not_applicable_patch': []}
+  if not edits:
+    return res
+  base = tempfile.mkdtemp(prefix='ordverif.', dir='/var/tmp')
+  scratch = os.path.join(base, 'repo')
+  fdir = None
+  try:
+    _copy_repo(scratch)
+    applied = []
+    for m in edits:
+      p = os.path.join(scratch, m['file'])
+      try:
+        s = open(p).read()
+      except OSError:
+        s = None
+      if s is not None and s.count(m['old']) == 1:
+        open(p, 'w').write(s.replace(m['old'], m['new']))
+        applied.append(m)
+      else:
+        res['not_applicable_patch'].append(m['name'])
+    if not applied:
+      return res
+    try:
+      fdir, digest, _, dt = extract.ensure_facts('dev', repo=scratch, quiet=True)
+    except SystemExit:
+      res['not_applicable_patch'] += [m['name'] + ' (scratch copy does not compile)' for m in applied]
+      return res
+    ctx = Ctx(pid, 'quick', Facts(fdir))
+    mod.run(ctx)
+    if ctx.violations:
+      res['alarmed'] = [{'edits': [m['name'] for m in applied], 'reported': [v.key for v in ctx.violations][:10]}]
+    else:
+      res['silent'] = [m['name'] for m in applied]
+    return res
+  finally:
+    shutil.rmtree(base, ignore_errors=True)
+    if fdir and os.path.isdir(fdir) and fdir != extract.facts_dir('dev'):
+      shutil.rmtree(fdir, ignore_errors=True)
+
+
 def run_pack(pid, mod):
   from .core import Ctx
   muts = list(getattr(mod, 'MUTANTS', []))
